@@ -18,26 +18,34 @@ TECHNIQUE = (
     "against a scripted gateway under a virtual clock; gateway frames with arrival times, client frames with send times and every "
     "write/read result are logged and replayed through a queue model written from the statement (ack = control word 0x02 + tester "
     "address pair + first five request bytes within ack_timeout; reads = payloads of ECU->tester data frames in order; alive check "
-    "answered at once; error words = connection error + close), under enumerated split points and interleavings"
+    "answered at once; error words = connection error + close), under enumerated split points and interleavings. Usage variations: every "
+    "scenario family also runs next to a SECOND live HSFZ connection (own gateway, own traffic, own or the same address pair, start offset) "
+    "in the same event loop, each connection's history judged separately; and 2-3 tasks write on ONE connection at the same time while the "
+    "gateway puts data / foreign frames / alive checks / short frames / foreign or wrong acks between the acks, every frame in a segment of its own"
 )
 LEVEL_TEXT = (
     "Exploration with exhaustive sub-spaces: gateway frame scripts (exhaustive to length 3 quick / 4 thorough over a 9-letter "
     "alphabet incl. short frames, status and error words; random to length 8) injected before the ack, after it, during a blocked "
     "read and while idle, x ack timeouts {100, 1000, 5000} ms, with the byte stream cut at every single split point of base scripts "
-    "(incl. inside the 6-byte header and between header and address bytes), seeded multi-splits, byte-wise and coalesced. Held = "
-    "held on the recorded histories."
+    "(incl. inside the 6-byte header and between header and address bytes), seeded multi-splits, byte-wise and coalesced. About a third of "
+    "the scripted and random cases are repeated/run as a pair of connections in one event loop (partner drawn from the scripted, random or "
+    "concurrent-writer family); a quarter of the random shard's cases are concurrent-writer scripts (2-3 writers, <=3 frames before and <=2 after "
+    "each ack, segment boundary forced between all frames / some coalesced / cut inside frames / bytewise, at most one request without ack). "
+    "A read blocked on the same connection WHILE another task writes is not part of the workload (see ASSUMPTIONS). Held = held on the recorded histories."
 )
 LEVEL_NOTE = "Trusted: frame builders and queue model in vf/checks/c07.py, vf/gateway.py, virtual clock. Status words (0x10/0x11/0x13) may be ignored or end the connection (the statement only fixes error words)."
 RULE = (
     "cases = (URI parameters incl. ack_timeout, client op program, gateway frame script with delays, segmentation plan); non-trivial = "
     "the script contains a frame other than the awaited one or a split inside a frame; distinct = distinct case tuples; distinct_traces = "
-    "distinct (frame label / op result) sequences"
+    "distinct (frame label / op result) sequences; a pair of connections in one event loop counts as one case and two histories"
 )
 ASSUMPTIONS = [
     "gateway frames are well-formed; an ack matches iff control word 0x02, the tester's address pair and exactly the first five request bytes",
     "stray acks that would match a later request are not generated",
     "status control words (0x10, 0x11, 0x13) may either be ignored or terminate the connection with a connection error",
     "after the connection was closed (missing ack, error word) later operations are only required to fail (OSError/ConnectionError), not to hang or succeed",
+    "concurrent writers: the ack timeout of a request counts from the moment its data frame is on the stream; every request starts with a unique prefix (an ack echoes only five bytes)",
+    "on one connection only writes run concurrently; a read() pending while another task calls write() on the same connection is not driven (reader and ack waiter share one queue)",
 ]
 EXHAUSTIVE = {"quick": False, "thorough": False}
 EXHAUSTIVE_NOTE = "exhaustive: pre-ack scripts to length 3/4, every single split point of the base scripts"
@@ -70,7 +78,17 @@ def shards(tier: str, seed: int) -> list[dict[str, Any]]:
 def required_reach(tier: str) -> dict[str, int]:
     return {"alive.phase.before-ack": 20, "alive.phase.blocked-in-read": 20, "alive.phase.idle": 20, "data-before-ack": 20, "split.in-header": 50, "split.header-address": 10,
             "split.in-payload": 50, "bytewise": 10, "coalesced-frames": 20, "write.acked": 500, "write.ack-timeout": 20, "read.delivered": 500, "read.timeout": 50,
-            "error-word.surfaced": 20, "short-frame": 20, "status-word": 10, "ack_timeout.100": 20, "ack_timeout.1000": 20, "ack_timeout.5000": 20, "histories": 1000, "concurrent-writers": 20}
+            "error-word.surfaced": 20, "short-frame": 20, "status-word": 10, "ack_timeout.100": 20, "ack_timeout.1000": 20, "ack_timeout.5000": 20, "histories": 1000, "concurrent-writers": 20,
+            "burst.over-16-unread-frames-then-alive-check": 50,
+            # several writers on one connection with other frames between the acks
+            "cw.histories": 500, "cw.write-issued-during-ack-wait": 200, "cw.queued-frame-before-ack-with-two-writers": 200,
+            "cw.queued-frame-before-ack-with-two-writers.separate-segments": 100, "cw.segment-boundary-between-all-frames": 200, "cw.some-frames-coalesced": 20,
+            "cw.split-inside-frame": 20, "cw.between-acks.D": 100, "cw.between-acks.F": 50, "cw.between-acks.A": 50, "cw.between-acks.K": 20, "cw.between-acks.X": 20,
+            "cw.write.acked": 500, "cw.write.no-ack": 20, "cw.read.delivered": 200, "alive.phase.concurrent-writers": 50,
+            # a second live connection in the same event loop
+            "dual.histories": 1000, "dual.operations-overlap": 500, "dual.op-ends-during-skip-hold": 200, "dual.op-ends-during-skip-hold.W": 100,
+            "dual.op-ends-during-skip-hold.R": 100, "dual.same-address-pair": 100, "dual.other-address-pair": 100, "dual.family.scripted": 100,
+            "dual.family.random": 100, "dual.family.cw": 100}
 
 
 def spec_frame(sc: dict[str, Any], spec: list[Any], req: bytes | None) -> tuple[bytes, str]:
@@ -129,11 +147,13 @@ def letter_spec(rng: random.Random, sc: dict[str, Any], letter: str, uid: list[i
     raise AssertionError(letter)
 
 
-def base_scenario(rng: random.Random) -> dict[str, Any]:
+def base_scenario(rng: random.Random, pair: tuple[int, int] | None = None) -> dict[str, Any]:
     src = rng.choice([0xF4, 0xF1, 0x01, rng.randrange(1, 256)])
     dst = rng.choice([0x10, 0x40, 0xDF, rng.randrange(1, 256)])
     if dst == src:
         dst ^= 0x10
+    if pair is not None:
+        src, dst = pair
     return {"src": src, "dst": dst, "ack_timeout": rng.choice([100, 1000, 5000]), "ops": [], "cuts": [], "bytewise": False}
 
 
@@ -141,21 +161,88 @@ def uri(sc: dict[str, Any]) -> str:
     return f"hsfz://192.0.2.9:6801?src_addr={sc['src']:#x}&dst_addr={sc['dst']:#x}&ack_timeout={sc['ack_timeout']}"
 
 
-async def run_scenario(sc: dict[str, Any]) -> dict[str, Any]:
+def _exc(e: BaseException) -> tuple[Any, ...]:
+    return ("exc", type(e).__name__, isinstance(e, ConnectionError), isinstance(e, TimeoutError), isinstance(e, OSError))
+
+
+async def _drive_seq(sc: dict[str, Any], tr: Any, g: gateway.Gateway, reactions: list[Any], oplog: list[dict[str, Any]]) -> None:
+    """one task runs the op program of `sc` on its own transport, one operation after the other"""
+    loop = asyncio.get_running_loop()
+    if sc.get("start"):
+        await asyncio.sleep(sc["start"])
+    for op in sc["ops"]:
+        ts = loop.time()
+        rec: dict[str, Any] = {"op": op["op"], "ts": ts}
+        prev_d = None
+        for d, spec in op.get("arrive", []):
+            b, lab = spec_frame(sc, spec, None)
+            g.send(d, b, lab, header_len=6, glue=(prev_d is not None and d == prev_d))
+            prev_d = d
+        try:
+            if op["op"] == "W":
+                reactions.append(op["react"])
+                n = await tr.write(bytes.fromhex(op["data"]), timeout=op.get("timeout"))
+                rec["res"] = ("ok", n)
+            elif op["op"] == "R":
+                r = await tr.read(timeout=op["timeout"])
+                rec["res"] = ("ok", r)
+            else:
+                await asyncio.sleep(op["dt"])
+                rec["res"] = ("ok", None)
+        except BaseException as e:
+            rec["res"] = _exc(e)
+        rec["te"] = loop.time()
+        oplog.append(rec)
+
+
+async def _drive_cw(sc: dict[str, Any], tr: Any, g: gateway.Gateway, reactions: list[Any], oplog: list[dict[str, Any]]) -> None:
+    """several tasks write on ONE transport at (nearly) the same time; the gateway answers the n-th request it receives with the n-th
+    reaction script; afterwards one task reads what is left"""
+    loop = asyncio.get_running_loop()
+    if sc.get("start"):
+        await asyncio.sleep(sc["start"])
+    reactions.extend(sc["reacts"])
+
+    async def w(i: int, wr: dict[str, Any]) -> dict[str, Any]:
+        if wr["start"]:
+            await asyncio.sleep(wr["start"])
+        rec: dict[str, Any] = {"op": "W", "i": i, "ts": loop.time()}
+        try:
+            rec["res"] = ("ok", await tr.write(bytes.fromhex(wr["data"]), timeout=None))
+        except BaseException as e:
+            rec["res"] = _exc(e)
+        rec["te"] = loop.time()
+        return rec
+
+    oplog.extend(await asyncio.gather(*(w(i, wr) for i, wr in enumerate(sc["writers"]))))
+    for _ in range(sc["reads"]):
+        rec = {"op": "R", "ts": loop.time()}
+        try:
+            rec["res"] = ("ok", await tr.read(timeout=sc["read_timeout"]))
+        except BaseException as e:
+            rec["res"] = _exc(e)
+        rec["te"] = loop.time()
+        oplog.append(rec)
+
+
+async def run_group(scs: list[dict[str, Any]]) -> list[dict[str, Any]]:
+    """every scenario gets its own HSFZTransport, its own gateway and its own traffic; all of them live in the same event loop and
+    their operations interleave in virtual time. Each connection's history is recorded (and judged) separately."""
     from gallia.transports.hsfz import HSFZTransport
 
     loop = asyncio.get_running_loop()
     gws: list[gateway.Gateway] = []
-    reactions: list[Any] = []
-    oplog: list[dict[str, Any]] = []
+    reactions: list[list[Any]] = [[] for _ in scs]
 
     def factory(n: int) -> gateway.Gateway:
+        sc = scs[n - 1]  # the connections are opened one after the other: the n-th belongs to the n-th scenario
+        react_q = reactions[n - 1]
         g = gateway.Gateway(split_client, cuts=set(sc["cuts"]), bytewise=sc["bytewise"])
 
         def on_frame(now: float, f: bytes) -> None:
             cword = struct.unpack("!H", f[4:6])[0]
-            if cword == 0x01 and reactions:
-                react = reactions.pop(0)
+            if cword == 0x01 and react_q:
+                react = react_q.pop(0)
                 req = f[8:]
                 prev_d = None
                 for d, spec in react:
@@ -167,50 +254,33 @@ async def run_scenario(sc: dict[str, Any]) -> dict[str, Any]:
         gws.append(g)
         return g
 
-    out: dict[str, Any] = {"ops": oplog}
+    outs: list[dict[str, Any]] = [{"ops": []} for _ in scs]
     with gateway.GatewayHub(factory):
         t0 = loop.time()
-        tr = await HSFZTransport.connect(uri(sc), timeout=2.0)
-        g = gws[0]
-        for op in sc["ops"]:
-            ts = loop.time()
-            rec: dict[str, Any] = {"op": op["op"], "ts": ts}
-            prev_d = None
-            for d, spec in op.get("arrive", []):
-                b, lab = spec_frame(sc, spec, None)
-                g.send(d, b, lab, header_len=6, glue=(prev_d is not None and d == prev_d))
-                prev_d = d
+        trs = [await HSFZTransport.connect(uri(sc), timeout=2.0) for sc in scs]
+        await asyncio.gather(*((_drive_cw if sc.get("kind") == "cw" else _drive_seq)(sc, tr, g, rq, out["ops"])
+                               for sc, tr, g, rq, out in zip(scs, trs, gws, reactions, outs)))
+        for tr, out in zip(trs, outs):
             try:
-                if op["op"] == "W":
-                    reactions.append(op["react"])
-                    n = await tr.write(bytes.fromhex(op["data"]), timeout=op.get("timeout"))
-                    rec["res"] = ("ok", n)
-                elif op["op"] == "R":
-                    r = await tr.read(timeout=op["timeout"])
-                    rec["res"] = ("ok", r)
-                else:
-                    await asyncio.sleep(op["dt"])
-                    rec["res"] = ("ok", None)
+                await tr.close()
+                await tr.close()
+                out["close"] = "ok"
             except BaseException as e:
-                rec["res"] = ("exc", type(e).__name__, isinstance(e, ConnectionError), isinstance(e, TimeoutError), isinstance(e, OSError))
-            rec["te"] = loop.time()
-            oplog.append(rec)
-        try:
-            await tr.close()
-            await tr.close()
-            out["close"] = "ok"
-        except BaseException as e:
-            out["close"] = type(e).__name__
-    g0 = gws[0]
-    out.update({"g_frames": g0.frames_out, "c_frames": g0.client_frames, "t0": t0, "split_in_header": g0.split_in_header, "split_in_payload": g0.split_in_payload,
-                "fed": g0.fed, "writer_closed": g0.writer.closed})
-    return out
+                out["close"] = type(e).__name__
+    for g0, out in zip(gws, outs):
+        out.update({"g_frames": g0.frames_out, "c_frames": g0.client_frames, "t0": t0, "split_in_header": g0.split_in_header, "split_in_payload": g0.split_in_payload,
+                    "fed": g0.fed, "writer_closed": g0.writer.closed})
+    return outs
 
 
-def check(ctx: Any, sc: dict[str, Any], out: dict[str, Any]) -> None:
+async def run_scenario(sc: dict[str, Any]) -> dict[str, Any]:
+    return (await run_group([sc]))[0]
+
+
+def check(ctx: Any, sc: dict[str, Any], out: dict[str, Any], wit: dict[str, Any] | None = None) -> None:
     src, dst = sc["src"], sc["dst"]
     ack_time = sc["ack_timeout"] / 1000
-    w = {"scenario": sc}
+    w = dict(wit) if wit else {"scenario": sc}
     ctx.reach("histories")
     ctx.reach(f"ack_timeout.{sc['ack_timeout']}")
     gfr = out["g_frames"]
@@ -443,15 +513,231 @@ def check(ctx: Any, sc: dict[str, Any], out: dict[str, Any]) -> None:
         ctx.violation(f"close/{out.get('close')}", "closing the transport (twice) raises", w)
 
 
-def one(ctx: Any, sc: dict[str, Any]) -> dict[str, Any] | None:
-    ctx.case(repr(sc), nontrivial=True)
+def check_cw(ctx: Any, sc: dict[str, Any], out: dict[str, Any], wit: dict[str, Any] | None = None) -> None:
+    """oracle for several writers on one connection. Per writer, from the statement alone: its request frame appears on the stream
+    exactly once and intact (time s); if the ack echoing its (unique) first five bytes with the tester's pair arrives within ack_timeout
+    of s - and before the connection was ended by another request's missing ack - the write completes, at that instant; if no such
+    ack arrives it fails with a connection error no later than s + ack_timeout.  What the gateway sent between the acks (data
+    frames, foreign frames, alive checks, short frames, foreign/wrong acks) changes nothing; the data frames stay available to the reads
+    that follow, in order of arrival."""
+    src, dst = sc["src"], sc["dst"]
+    ack_time = sc["ack_timeout"] / 1000
+    w = dict(wit) if wit else {"scenario": sc}
+    ctx.reach("cw.histories")
+    ctx.reach(f"ack_timeout.{sc['ack_timeout']}")
+    gfr, cfr = out["g_frames"], out["c_frames"]
+    ctx.trace(("cw",) + tuple(l for _, _, l in gfr) + tuple((o["op"], o["res"][0] if o["res"][0] == "ok" else o["res"][1]) for o in out["ops"]))
+    items = [{"t": t, "l": l, "f": f} for t, f, l in gfr]
+    wrecs = [o for o in out["ops"] if o["op"] == "W"]
+    rrecs = [o for o in out["ops"] if o["op"] == "R"]
+    datas = [bytes.fromhex(x["data"]) for x in sc["writers"]]
+    expected = {fr(0x01, bytes([src, dst]) + d): i for i, d in enumerate(datas)}
+    sent: dict[int, float] = {}
+    for t, f in cfr:
+        if f[4:6] != b"\x00\x01":
+            continue
+        i = expected.get(f)
+        if i is None or i in sent:
+            ctx.violation("write/concurrent/request-frame", "concurrent writes put something other than each request's data frame exactly once on the stream", {**w, "frame": f})
+            return
+        sent[i] = t
+    acked: dict[int, float] = {}
+    for i, s_t in sent.items():
+        for it in items:
+            if it["l"] == "ACK" and it["t"] >= s_t and it["f"][6:8] == bytes([src, dst]) and it["f"][8:] == datas[i][:5]:
+                acked[i] = it["t"]
+                break
+    in_time = {i: a for i, a in acked.items() if a <= sent[i] + ack_time - TOL}
+    dead = [sent[i] + ack_time for i in sent if i not in acked or acked[i] > sent[i] + ack_time + TOL]
+    closed_at = min(dead) if dead else None
+    # reach: what the schedule contained
+    seg_ends: set[int] = set()
+    off = 0
+    for _, d in out["fed"]:
+        off += len(d)
+        seg_ends.add(off)
+    fr_ends: list[int] = []
+    off = 0
+    for _, f, _ in gfr:
+        off += len(f)
+        fr_ends.append(off)
+    if len(gfr) >= 3 and all(e in seg_ends for e in fr_ends):
+        ctx.reach("cw.segment-boundary-between-all-frames")
+    elif any(e not in seg_ends for e in fr_ends):
+        ctx.reach("cw.some-frames-coalesced")
+    if out["split_in_header"] or out["split_in_payload"] or sc["bytewise"]:
+        ctx.reach("cw.split-inside-frame")
+    for o in wrecs:
+        if any(j != o["i"] and j in sent and sent[j] <= o["ts"] and (j not in acked or o["ts"] < acked[j]) for j in sent):
+            ctx.reach("cw.write-issued-during-ack-wait")
+            break
+    between = set()
+    for it in items:
+        if it["l"] in ("ACK",):
+            continue
+        waiting = [i for i in sent if sent[i] < it["t"] and (i not in acked or it["t"] < acked[i])]
+        pending = [o for o in wrecs if o["ts"] <= it["t"] < o["te"]]
+        if waiting and len(pending) >= 2:
+            between.add(it["l"])
+    for l in between:
+        ctx.reach(f"cw.between-acks.{l}")
+    if between & {"D", "F", "K", "X"}:
+        ctx.reach("cw.queued-frame-before-ack-with-two-writers")
+        if all(e in seg_ends for e in fr_ends):
+            ctx.reach("cw.queued-frame-before-ack-with-two-writers.separate-segments")
+    # writers
+    for o in wrecs:
+        i, res, te = o["i"], o["res"], o["te"]
+        if i in in_time and (closed_at is None or in_time[i] < closed_at - TOL):
+            ctx.reach("cw.write.acked")
+            if res[0] != "ok":
+                ctx.violation(f"write/concurrent/acked-but-fails/{res[1]}", "with several writers on one connection a write failed although the gateway acked its request within the ack timeout",
+                              {**w, "op": o, "sent_at": sent[i], "ack_at": in_time[i]})
+                return
+            if abs(te - in_time[i]) > TOL:
+                ctx.violation("write/concurrent/completion-time", "with several writers on one connection a write did not complete when its ack arrived", {**w, "op": o, "ack_at": in_time[i]})
+                return
+            continue
+        if i in sent and i not in acked:
+            ctx.reach("cw.write.no-ack")
+            if res[0] == "ok":
+                ctx.violation("write/concurrent/completes-without-ack", "a write completed although no ack for its request arrived", {**w, "op": o})
+                return
+            if not (res[2] or (closed_at is not None and closed_at < sent[i] + ack_time - TOL and res[4])):
+                ctx.violation(f"write/concurrent/no-ack/{res[1]}", "a missing ack does not surface as a connection error", {**w, "op": o})
+                return
+            if te > sent[i] + ack_time + TOL:
+                ctx.violation("write/concurrent/no-ack/too-late", "a write whose ack never arrived did not fail within the ack timeout", {**w, "op": o})
+                return
+            continue
+        if i not in sent and closed_at is None:
+            ctx.violation("write/concurrent/never-sent", "a write on an open connection ended without its request ever being put on the stream", {**w, "op": o})
+            return
+        # sent late / acked after the connection had ended / never sent on a closed connection: the statement fixes no outcome except
+        # that a write cannot complete without its ack and must not fail with a foreign exception
+        ctx.reach("cw.write.after-connection-ended")
+        if res[0] == "ok" and i not in acked:
+            ctx.violation("write/concurrent/completes-without-ack", "a write completed although no ack for its request arrived", {**w, "op": o})
+            return
+        if res[0] == "exc" and not (res[4] or res[3]):
+            ctx.violation(f"after-close/W/{res[1]}", "operation on the closed connection fails with something other than an OS/connection error", {**w, "op": o})
+            return
+    # reads after the writers
+    ds = [it for it in items if it["l"] == "D"]
+    di = 0
+    for o in rrecs:
+        ts, te, res = o["ts"], o["te"], o["res"]
+        if closed_at is not None:
+            if res[0] == "ok":
+                ctx.violation("after-close/R-succeeds", "operation succeeds on a connection that was closed (missing ack / error word)", {**w, "op": o})
+                return
+            if not (res[4] or res[3]):
+                ctx.violation(f"after-close/R/{res[1]}", "operation on the closed connection fails with something other than an OS/connection error", {**w, "op": o})
+                return
+            continue
+        limit = ts + sc["read_timeout"]
+        nxt = ds[di] if di < len(ds) and ds[di]["t"] < limit - TOL else None
+        if nxt is None:
+            if di < len(ds) and abs(ds[di]["t"] - limit) <= TOL:
+                di += 1 if res[0] == "ok" else 0
+                continue
+            if res[0] == "ok":
+                known = [it for it in ds if it["f"][8:] == res[1]]
+                ctx.violation(f"read/{'duplicated' if known else 'fabricated'}", "a read returned data although no undelivered ECU->tester data frame had arrived", {**w, "op": o})
+                return
+            if not res[3]:
+                ctx.violation(f"read/{res[1]}", "read() on an open connection fails with something other than a timeout", {**w, "op": o})
+                return
+            ctx.reach("read.timeout")
+            if abs(te - limit) > TOL:
+                ctx.violation("read/timeout-time", "read() did not time out at the caller's timeout", {**w, "op": o})
+                return
+            continue
+        if res[0] != "ok":
+            ctx.violation(f"read/lost-or-stalled/concurrent-writers/{res[1]}", "a read failed although an ECU->tester data frame for it had arrived in time (skipped while several writers waited for their acks)",
+                          {**w, "op": o, "arrived": nxt["t"]})
+            return
+        if res[1] != nxt["f"][8:]:
+            if any(it["f"][8:] == res[1] for it in ds[di + 1:]):
+                ctx.violation("read/out-of-order/concurrent-writers", "reads deliver the data frames in another order than they arrived", {**w, "op": o, "expected": nxt["f"][8:]})
+            else:
+                ctx.violation("read/foreign-or-fabricated-data", "a read returned data that is not the payload of an undelivered ECU->tester data frame", {**w, "op": o, "expected": nxt["f"][8:]})
+            return
+        di += 1
+        ctx.reach("cw.read.delivered")
+        if abs(te - max(ts, nxt["t"])) > TOL:
+            ctx.violation("read/late-delivery", "a data frame that had arrived was not delivered to the waiting read at once", {**w, "op": o, "arrived": nxt["t"]})
+            return
+    # alive checks between the acks: answered at the same virtual instant
+    want = fr(0x12, bytes([0x00, src]))
+    resp = [(t, f) for t, f in cfr if f[4:6] == b"\x00\x12"]
+    end_of_run = out["ops"][-1]["te"] if out["ops"] else 0.0
+    stop = closed_at if closed_at is not None else 1e18
+    for k, t in enumerate(it["t"] for it in items if it["l"] == "A" and it["t"] < stop - TOL and it["t"] < end_of_run - TOL):
+        ctx.reach("alive.phase.concurrent-writers")
+        if k >= len(resp):
+            ctx.violation("alive-check/unanswered/concurrent-writers", "an alive check was not answered", {**w, "request_at": t})
+            return
+        if resp[k][1] != want:
+            ctx.violation("alive-check/response-bytes", "alive check reply is not 00000002 0012 00 <tester address>", {**w, "got": resp[k][1], "want": want})
+            return
+        if abs(resp[k][0] - t) > TOL:
+            ctx.violation("alive-check/late/concurrent-writers", "alive check not answered immediately", {**w, "request_at": t, "answered_at": resp[k][0]})
+            return
+    if out.get("close") != "ok":
+        ctx.violation(f"close/{out.get('close')}", "closing the transport (twice) raises", w)
+
+
+HOLD = {"W": ("D", "F", "K", "X"), "R": ("F", "K", "X", "ACK")}  # frames an operation of that kind has to take from the queue and hand back
+
+
+def pair_reach(ctx: Any, outs: list[dict[str, Any]]) -> None:
+    """two live connections: did an operation of one connection end while the other connection was in the middle of an operation that
+    had already skipped a frame (the situation in which per-connection state must not leak between the objects)?"""
+    ctx.reach("dual.groups")
+    hit = False
+    for a, b in ((0, 1), (1, 0)):
+        items = outs[a]["g_frames"]
+        ends = [o["te"] for o in outs[b]["ops"] if o["op"] in ("W", "R")]
+        for o in outs[a]["ops"]:
+            if o["op"] not in HOLD:
+                continue
+            ts_skip = [t for t, _, l in items if l in HOLD[o["op"]] and o["ts"] <= t < o["te"]]
+            if not ts_skip:
+                continue
+            t_skip = min(ts_skip)
+            if any(t_skip < e < o["te"] for e in ends):
+                ctx.reach(f"dual.op-ends-during-skip-hold.{o['op']}")
+                hit = True
+        if any(o1["ts"] < o2["te"] and o2["ts"] < o1["te"] for o1 in outs[a]["ops"] for o2 in outs[b]["ops"] if o1["op"] in HOLD and o2["op"] in HOLD):
+            ctx.reach("dual.operations-overlap")
+    if hit:
+        ctx.reach("dual.op-ends-during-skip-hold")
+
+
+def run_checked(ctx: Any, scs: list[dict[str, Any]]) -> list[dict[str, Any]] | None:
+    """runs one scenario - or several scenarios on connections of their own in one event loop - and judges every connection separately"""
+    ctx.case(repr(scs[0]) if len(scs) == 1 else repr(scs), nontrivial=True)
     try:
-        out = vtime.run(run_scenario(sc))
+        outs = vtime.run(run_group(scs))
     except vtime.Deadlock:
-        ctx.violation("blocks-forever", "an operation can never complete (nothing scheduled, nothing readable)", {"scenario": sc})
+        ctx.violation("blocks-forever", "an operation can never complete (nothing scheduled, nothing readable)", {"scenario": scs[0]} if len(scs) == 1 else {"scenario": scs[0], "group": scs})
         return None
-    check(ctx, sc, out)
-    return out
+    for i, (sc, out) in enumerate(zip(scs, outs)):
+        wit = {"scenario": sc} if len(scs) == 1 else {"scenario": sc, "group": scs, "index": i}
+        if len(scs) > 1:
+            ctx.reach("dual.histories")
+            ctx.reach(f"dual.family.{sc.get('family', sc.get('kind', 'seq'))}")
+            ctx.reach("dual.same-address-pair" if all((x["src"], x["dst"]) == (sc["src"], sc["dst"]) for x in scs) else "dual.other-address-pair")
+        (check_cw if sc.get("kind") == "cw" else check)(ctx, sc, out, wit)
+    if len(scs) == 2:
+        pair_reach(ctx, outs)
+    return outs
+
+
+def one(ctx: Any, sc: dict[str, Any], partner: dict[str, Any] | None = None) -> dict[str, Any] | None:
+    outs = run_checked(ctx, [sc] if partner is None else [sc, partner])
+    return None if outs is None else outs[0]
 
 
 def reaction(rng: random.Random, sc: dict[str, Any], pre: list[str], ackkind: str, post: list[str], uid: list[int]) -> list[Any]:
@@ -472,14 +758,127 @@ def reaction(rng: random.Random, sc: dict[str, Any], pre: list[str], ackkind: st
     return r
 
 
-def scripted(rng: random.Random, pre: list[str], ackkind: str, post: list[str]) -> dict[str, Any]:
-    sc = base_scenario(rng)
-    uid = [0]
+def scripted(rng: random.Random, pre: list[str], ackkind: str, post: list[str], pair: tuple[int, int] | None = None, uid0: int = 0) -> dict[str, Any]:
+    sc = base_scenario(rng, pair)
+    sc["family"] = "scripted"
+    uid = [uid0]
     nD = sum(1 for l in pre + post if l == "D")
     sc["ops"] = [{"op": "W", "data": rng.choice(["22f190", "3e00", "2e1234aabbccdd", "3101020304", "2e1234aabbccddee"]), "react": reaction(rng, sc, pre, ackkind, post, uid)}]
     for _ in range(nD + 1):
         sc["ops"].append({"op": "R", "timeout": 1.0})
     return sc
+
+
+def random_scenario(rng: random.Random, pair: tuple[int, int] | None = None, uid0: int = 0) -> dict[str, Any]:
+    sc = base_scenario(rng, pair)
+    sc["family"] = "random"
+    uid = [uid0]
+    ops: list[dict[str, Any]] = []
+    pending_d = 0
+    for _ in range(rng.randint(1, 4)):
+        pre = rng.choices(LETTERS, weights=[5, 2, 3, 1, 1, 1, 0.3, 0.4], k=rng.choice([0, 0, 1, 2, 3]))
+        post = rng.choices(["D", "F", "A", "S", "T", "E"], weights=[6, 2, 2, 1, 0.3, 0.4], k=rng.choice([0, 1, 2, 3]))
+        ackkind = rng.choices(["ack", "none", "late"], weights=[12, 1, 1])[0]
+        uid[0] += 1  # every request starts with a unique prefix so that a stray ack echo can never match a later request
+        ops.append({"op": "W", "data": rng.choice(["22", "2e", "31"]) + uid[0].to_bytes(2, "big").hex() + rng.randbytes(rng.choice([0, 1, 2, 3, 30])).hex(), "react": reaction(rng, sc, pre, ackkind, post, uid)})
+        pending_d += sum(1 for l in pre + post if l == "D")
+        for _ in range(rng.randint(0, 2)):
+            if rng.random() < 0.6:
+                arr = []
+                if rng.random() < 0.5:
+                    arr.append((rng.choice([0.05, 0.3]), letter_spec(rng, sc, "A", uid)))
+                if rng.random() < 0.4:
+                    arr.append((0.4, letter_spec(rng, sc, "D", uid)))
+                    pending_d += 1
+                ops.append({"op": "R", "timeout": rng.choice([0.5, 1.0]), "arrive": arr})
+            else:
+                l = rng.choice(["A", "A", "D", "F", "S"])
+                pending_d += 1 if l == "D" else 0
+                ops.append({"op": "idle", "dt": rng.choice([0.3, 0.6]), "arrive": [(rng.choice([0.01, 0.2]), letter_spec(rng, sc, l, uid))]})
+    if rng.random() < 0.06:
+        # a gateway far ahead of a tester that is not reading at the moment: a burst of queueable frames, then an alive check
+        n = rng.randint(17, 40)
+        arr, t = [], 0.01
+        for _ in range(n):
+            l = rng.choice(["D", "D", "F", "K"])
+            pending_d += 1 if l == "D" else 0
+            arr.append((round(t, 5), letter_spec(rng, sc, l, uid)))
+            t += rng.choice([0.0, 0.001])
+        arr.append((round(t + 0.01, 5), letter_spec(rng, sc, "A", uid)))
+        ops.append({"op": "idle", "dt": 0.3, "arrive": arr})
+        sc["burst"] = n
+    for _ in range(pending_d + 1):
+        ops.append({"op": "R", "timeout": 0.6})
+    sc["ops"] = ops
+    r = rng.random()
+    if r < 0.3:
+        sc["cuts"] = sorted(rng.sample(range(1, 300), rng.randint(1, 30)))
+    elif r < 0.4:
+        sc["bytewise"] = True
+    return sc
+
+
+CW_LETTERS = ["D", "F", "A", "S", "K", "X"]  # what a gateway may put between the acks of concurrent requests (no status/error words: the run stays decidable)
+
+
+def cw_scenario(rng: random.Random, pair: tuple[int, int] | None = None, uid0: int = 0) -> dict[str, Any]:
+    """2-3 tasks write on one connection at (nearly) the same time. The n-th request the gateway receives is answered with a script
+    pre-frames, ack, post-frames; by default every gateway frame travels in a segment of its own (strictly increasing arrival times),
+    sometimes frames are coalesced, the stream is cut inside frames or delivered bytewise. At most one request stays without ack."""
+    sc = base_scenario(rng, pair)
+    sc.update({"kind": "cw", "family": "cw", "read_timeout": 1.0})
+    at = sc["ack_timeout"] / 1000
+    scale = 1.0 if at >= 1 else 0.5
+    uid = [uid0]
+    n = rng.choice([2, 2, 3])
+    noack = rng.randrange(n) if rng.random() < 0.12 else None
+    coalesce = rng.random() < 0.15
+    slow = rng.random() < 0.2  # acks late in the ack window: time queued behind the other writer must not count
+    steps = [0.0, 0.001, 0.004] if coalesce else [0.001, 0.004, 0.01]
+    writers, reacts = [], []
+    n_d = 0
+    for i in range(n):
+        uid[0] += 1  # unique request prefix: an HSFZ ack echoes only the first five request bytes
+        data = rng.choice(["22", "2e", "31"]) + uid[0].to_bytes(2, "big").hex() + rng.randbytes(rng.choice([0, 1, 2, 3, 30])).hex()
+        writers.append({"data": data, "start": 0.0 if i == 0 else rng.choice([0.0, 0.0, 0.0002, 0.002])})
+        pre = rng.choices(CW_LETTERS, weights=[5, 2, 3, 1, 1, 1], k=rng.choice([0, 1, 1, 2, 3]))
+        post = rng.choices(["D", "F", "A", "S"], weights=[5, 2, 2, 1], k=rng.choice([0, 0, 1, 2]))
+        r: list[Any] = []
+        d = 0.0
+        for l in pre:
+            d += rng.choice(steps) * scale
+            r.append((round(d, 5), letter_spec(rng, sc, l, uid)))
+        d += at * rng.choice([0.3, 0.6]) if slow else rng.choice(steps) * scale
+        if i != noack:
+            r.append((round(d, 5), ["ACK"]))
+        for l in post:
+            d += rng.choice(steps) * scale
+            r.append((round(d, 5), letter_spec(rng, sc, l, uid)))
+        n_d += sum(1 for l in pre + post if l == "D")
+        reacts.append(r)
+    sc.update({"writers": writers, "reacts": reacts, "reads": n_d + 1})
+    r2 = rng.random()
+    if r2 < 0.15:
+        sc["cuts"] = sorted(rng.sample(range(1, 200), rng.randint(1, 20)))
+    elif r2 < 0.22:
+        sc["bytewise"] = True
+    return sc
+
+
+def partner_scenario(rng: random.Random, sc: dict[str, Any]) -> dict[str, Any]:
+    """the second live connection of a run: a scenario of any family with its own gateway, its own traffic (payload and request tags
+    disjoint from the first connection's), usually its own address pair (sometimes the same pair as the first connection - two gateways
+    may well serve the same tester/ECU addresses) and a start offset"""
+    pair = (sc["src"], sc["dst"]) if rng.random() < 0.3 else None
+    fam = rng.choices(["random", "scripted", "cw"], weights=[5, 3, 2])[0]
+    if fam == "random":
+        p = random_scenario(rng, pair, 0x8000)
+    elif fam == "cw":
+        p = cw_scenario(rng, pair, 0x8000)
+    else:
+        p = scripted(rng, rng.choices(LETTERS[:6], k=rng.choice([0, 1, 2])), "ack", rng.choices(["D", "F", "A"], k=rng.choice([0, 1, 2])), pair, 0x8000)
+    p["start"] = rng.choice([0.0, 0.0, 0.0005, 0.002, 0.005, 0.015])
+    return p
 
 
 def run(ctx: Any, params: dict[str, Any]) -> None:
@@ -504,6 +903,9 @@ def run(ctx: Any, params: dict[str, Any]) -> None:
                             continue
                         sc = scripted(rng, pre, ackkind, post)
                         out = one(ctx, sc)
+                        if k % 3 == 1:
+                            # the same script next to a second live connection (own gateway, own traffic) in the same event loop
+                            one(ctx, sc, partner_scenario(rng, sc))
                         if out is None or ackkind != "ack" or k % 11:
                             continue
                         total = sum(len(f) for _, f, _ in out["g_frames"])
@@ -534,41 +936,17 @@ def run(ctx: Any, params: dict[str, Any]) -> None:
     for i in range(params["n"]):
         if i % 25 == 0:
             concurrent_writers(ctx, rng)
-        sc = base_scenario(rng)
-        uid = [0]
-        ops: list[dict[str, Any]] = []
-        pending_d = 0
-        for _ in range(rng.randint(1, 4)):
-            pre = rng.choices(LETTERS, weights=[5, 2, 3, 1, 1, 1, 0.3, 0.4], k=rng.choice([0, 0, 1, 2, 3]))
-            post = rng.choices(["D", "F", "A", "S", "T", "E"], weights=[6, 2, 2, 1, 0.3, 0.4], k=rng.choice([0, 1, 2, 3]))
-            ackkind = rng.choices(["ack", "none", "late"], weights=[12, 1, 1])[0]
-            uid[0] += 1  # every request starts with a unique prefix so that a stray ack echo can never match a later request
-            ops.append({"op": "W", "data": rng.choice(["22", "2e", "31"]) + uid[0].to_bytes(2, "big").hex() + rng.randbytes(rng.choice([0, 1, 2, 3, 30])).hex(), "react": reaction(rng, sc, pre, ackkind, post, uid)})
-            pending_d += sum(1 for l in pre + post if l == "D")
-            for _ in range(rng.randint(0, 2)):
-                if rng.random() < 0.6:
-                    arr = []
-                    if rng.random() < 0.5:
-                        arr.append((rng.choice([0.05, 0.3]), letter_spec(rng, sc, "A", uid)))
-                    if rng.random() < 0.4:
-                        arr.append((0.4, letter_spec(rng, sc, "D", uid)))
-                        pending_d += 1
-                    ops.append({"op": "R", "timeout": rng.choice([0.5, 1.0]), "arrive": arr})
-                else:
-                    l = rng.choice(["A", "A", "D", "F", "S"])
-                    pending_d += 1 if l == "D" else 0
-                    ops.append({"op": "idle", "dt": rng.choice([0.3, 0.6]), "arrive": [(rng.choice([0.01, 0.2]), letter_spec(rng, sc, l, uid))]})
-        for _ in range(pending_d + 1):
-            ops.append({"op": "R", "timeout": 0.6})
-        sc["ops"] = ops
-        r = rng.random()
-        if r < 0.3:
-            sc["cuts"] = sorted(rng.sample(range(1, 300), rng.randint(1, 30)))
-        elif r < 0.4:
-            sc["bytewise"] = True
-        one(ctx, sc)
+        if i % 4 == 2:
+            # several writers on one connection, frames between the acks; every other time next to a second live connection
+            sc = cw_scenario(rng)
+            one(ctx, sc, partner_scenario(rng, sc) if i % 8 == 2 else None)
+        sc = random_scenario(rng)
+        if sc.get("burst"):
+            ctx.reach("burst.over-16-unread-frames-then-alive-check")
+        # every third case runs next to a second live connection in the same event loop
+        one(ctx, sc, partner_scenario(rng, sc) if i % 3 == 1 else None)
         if i % 100 == 0:
-            ctx.sample({"uri": uri(sc), "ops": [(o["op"], [s[1][0] for s in o.get("react", [])] or None) for o in ops][:8], "cuts": sc["cuts"][:6]})
+            ctx.sample({"uri": uri(sc), "ops": [(o["op"], [s[1][0] for s in o.get("react", [])] or None) for o in sc["ops"]][:8], "cuts": sc["cuts"][:6]})
         if ctx.out_of_time():
             break
 
@@ -629,8 +1007,4 @@ def replay(ctx: Any, witness: dict[str, Any]) -> None:
     if "latency" in witness:
         concurrent_writers(ctx, random.Random(0))
         return
-    for o in sc["ops"]:
-        for key in ("react", "arrive"):
-            if key in o:
-                o[key] = [(d, s) for d, s in o[key]]
-    one(ctx, sc)
+    run_checked(ctx, witness["group"] if "group" in witness else [sc])
